@@ -525,7 +525,10 @@ func schedStr(sc *schedScenario, ds []directive) string {
 func soloStepwise(u *U, b schedBody, globalsEvery int) (result string, steps int, syncWrites int) {
 	st := newImmState()
 	fp0 := st.fingerprints()
-	g0 := globalsBaseline()
+	g0 := map[string]string{}
+	for k, v := range fingerprintGlobals() {
+		g0[k] = v
+	}
 	reported := map[string]bool{}
 	th := vs.NewThread(0, func() { result = b.run(st) })
 	n := 0
@@ -542,7 +545,10 @@ func soloStepwise(u *U, b schedBody, globalsEvery int) (result string, steps int
 				}
 			}
 		}
-		if globalsEvery > 0 && n%globalsEvery == 0 {
+		// package-level variables: at every boundary while a lock is held and at every
+		// synchronisation operation (so that a change is attributed to the critical section that
+		// made it), otherwise thinned
+		if t.LocksHeld > 0 || site < 0 || (globalsEvery > 0 && n%globalsEvery == 0) {
 			gn := fingerprintGlobals()
 			for k, v := range g0 {
 				if gn[k] != v && !reported["G:"+k] {
@@ -551,6 +557,8 @@ func soloStepwise(u *U, b schedBody, globalsEvery int) (result string, steps int
 						u.Violation("step.unsynchronised-global-write", b.name+" -> "+k, fmt.Sprintf("while %s runs, package-level variable %s changes before %s (statement boundary %d) and the thread holds no lock", b.name, k, siteName(site), t.Steps))
 					} else {
 						syncWrites++
+						g0[k] = gn[k] // a write under a lock: the new contents are the baseline
+						reported["G:"+k] = false
 					}
 				}
 			}
@@ -567,11 +575,7 @@ func soloStepwise(u *U, b schedBody, globalsEvery int) (result string, steps int
 	gn := fingerprintGlobals()
 	for k, v := range g0 {
 		if gn[k] != v && !reported["G:"+k] {
-			if th.SyncOps == 0 {
-				u.Violation("step.unsynchronised-global-write", b.name+" -> "+k, fmt.Sprintf("%s changes package-level variable %s and performs no synchronisation operation at all", b.name, k))
-			} else {
-				syncWrites++
-			}
+			u.Violation("step.unsynchronised-global-write", b.name+" -> "+k, fmt.Sprintf("%s changes package-level variable %s outside every critical section (the change was first seen after the body returned)", b.name, k))
 			gBaseline = gn
 		}
 	}
